@@ -223,6 +223,7 @@ Ev(f, va, be, P) ==
             [] nm = "implies" /\ na = 2 ->
                  LET a == Ev(as[1], va, be, P) IN
                  IF a = "F" THEN "T" ELSE LET b == Ev(as[2], va, be, P) IN IF b = "T" THEN "T" ELSE IF a = "T" /\ b = "F" THEN "F" ELSE "N"
+            [] nm = "xor" /\ na = 2 -> Not3(Iff3(Ev(as[1], va, be, P), Ev(as[2], va, be, P)))
             [] nm = "equals" /\ na = 2 ->
                  IF IsBoolNode(as[1]) THEN Iff3(Ev(as[1], va, be, P), Ev(as[2], va, be, P))
                  ELSE IF as[1][3] \in FirstOrderT
